@@ -247,6 +247,24 @@ class _:
             exp[n] = V[n]
             if not np.array_equal(K4.weights, w) or any(not np.array_equal(a, b) for a, b in zip(K4.factor_matrices, exp)):
                 raise Fail("update(mode)", f"{case} n={n}")
+        # update replaces one factor; factors that share their array with the replaced one (same array used for two modes
+        # of equal size, or a second tensor built over the same arrays without copying) keep their values
+        for n in range(N):
+            for n2 in range(N):
+                if n2 != n and U[n2].shape == U[n].shape:
+                    A = np.asfortranarray(U[n].copy())
+                    fm = [np.asfortranarray(u.copy()) for u in U]
+                    fm[n] = fm[n2] = A
+                    Ks = ttb.ktensor(fm, w.copy(), copy=False)
+                    Ks.update(n, V[n].reshape(-1, order="F").copy())
+                    if not np.array_equal(Ks.factor_matrices[n], V[n]) or not np.array_equal(Ks.factor_matrices[n2], U[n]):
+                        raise Fail("update(mode):shared-array-between-modes", f"{case} n={n} n2={n2}")
+        fmA = [np.asfortranarray(u.copy()) for u in U]
+        K5 = ttb.ktensor(list(fmA), w.copy(), copy=False)       # separate lists, the same arrays
+        K6 = ttb.ktensor(list(fmA), w.copy(), copy=False)
+        K5.update(0, V[0].reshape(-1, order="F").copy())
+        if not np.array_equal(K6.factor_matrices[0], U[0]) or not np.array_equal(fmA[0], U[0]):
+            raise Fail("update(mode):changes-another-tensor-built-over-the-same-arrays", f"{case}")
         # tolist: the list of factors denotes the same tensor with unit weights
         L = ttb.ktensor([u.copy() for u in U], w.copy()).tolist()
         if not close(kfull([np.asarray(f) for f in L], np.ones(R)), X):
